@@ -753,6 +753,7 @@ type scenario struct {
 	findings []finding
 	tags     map[string]bool
 	fmu      sync.Mutex
+	gmu      sync.Mutex // guards got once the goroutines run freely (op `free`)
 
 	// feeder
 	feed            []string
@@ -857,7 +858,9 @@ func (sc *scenario) record(ev tcell.Event) {
 	sc.c.mu.Lock()
 	rec.epoch = sc.c.epoch
 	sc.c.mu.Unlock()
+	sc.gmu.Lock()
 	sc.got = append(sc.got, rec)
+	sc.gmu.Unlock()
 }
 
 func parseHdr(s string) map[string]string {
@@ -1471,6 +1474,19 @@ func (sc *scenario) director(nPost, perPost int, postWait bool) {
 			sc.steadyCheck()
 		case "suspend":
 			sc.shutdown("suspend")
+		case "free":
+			// from here on no serialising controller: the goroutines of the library and of the test run under the real Go
+			// scheduler.  (Under the controller an operation at a parking point is only started when it cannot block, so a
+			// change that makes a blocking send non-blocking — drop, or hand over to a helper goroutine — never shows.)
+			c.park("dir-step", nil, false)
+			sc.tag("free-running")
+			c.release()
+		case "sleep":
+			if len(f) >= 2 && c.free.Load() {
+				time.Sleep(time.Duration(atoi(f[1])) * time.Millisecond)
+			}
+		case "freecheck":
+			sc.freeCheck()
 		case "resize":
 			// a window-size change + SIGWINCH-style notification at this point of the script (op `resize W H`)
 			if len(f) >= 3 {
